@@ -80,6 +80,8 @@ def build(cls, case, fem):
     plain2d = dim == 2 and cls not in ("planestrain", "axisymmetric", "mixed")
     mu, bulk = case["mu"], case["bulk"]
 
+    switched_off = []
+
     def make_items(fcx, statevars=None):
         if cls == "linear" or plain2d:
             um = fem.LinearElastic(E=2 * mu * 1.3, nu=0.3) if dim == 3 else fem.constitution.LinearElasticPlaneStrain(E=2 * mu * 1.3, nu=0.3)
@@ -97,11 +99,14 @@ def build(cls, case, fem):
             mult = (None, 2.5, 1.0, 0.4)[case["pseed"] % 4] if cls in ("nonlinear", "loads") else None
             body = fem.SolidBody(fem.NeoHooke(mu=mu, bulk=bulk), fcx, multiplier=mult)
         items = [body]
-        if case["pseed"] % 5 == 0 and cls in ("linear", "nonlinear", "loads") and not plain2d:
+        # (selected by a mix of drawn values, so that Hypothesis' minimal examples - all zeros, nothing moves - are not the only ones)
+        pick = (case["pseed"] + case["tolexp"] + case["maxiter"] + int(1000 * sum(abs(v) for v in case["move"]))) % 2 == 0
+        if pick and cls in ("linear", "nonlinear", "loads") and not plain2d:
             # a switched-off body (multiplier 0.0) of another stiffness among the items: it contributes neither to the residual nor
             # to the system matrix
             off_um = fem.LinearElastic(E=7.0 * mu, nu=0.1) if dim == 3 else fem.constitution.LinearElasticPlaneStrain(E=7.0 * mu, nu=0.1)
             items.append(fem.SolidBody(off_um, fcx, multiplier=0.0))
+            switched_off.append(1)
         if cls == "loads":
             rng = np.random.default_rng(case["pseed"])
             for e in case["extra"]:
@@ -173,6 +178,7 @@ def build(cls, case, fem):
         mJ[::2] = True
         bounds["vol"] = fem.Boundary(fc.fields[2], mask=mJ, value=1.01)
         expected[("field", 2)] = (np.where(mJ)[0], 1.01)
+    expected[("label", 0)] = switched_off
     return mesh, info, fc, bounds, make_items, X, expected
 
 
@@ -243,7 +249,10 @@ def check(cls, case, rec):
     u_res = res.x[0].values
     worst = 0.0
     for (p, c_), v in expected.items():
-        if p == "field":
+        if p == "label":
+            if v:
+                rec.label("switched-off-body-among-the-items")
+        elif p == "field":
             idx, val = v
             worst = max(worst, float(np.abs(np.asarray(res.x[c_].values).ravel()[idx] - val).max()))
             rec.label("boundary-on-the-third-field")
@@ -423,7 +432,7 @@ def scalar_check(kind, case, rec):
 
 FAMILIES = [
     Family("scalar", ["quad", "hexahedron"], scalar_check, strategy=scalar_strategy, n={"quick": 15, "thorough": 400}, chunk=5),
-    Family("newton", CLASSES, check, strategy=strategy, n={"quick": 24, "thorough": 1200}, chunk=8, weight=3),
+    Family("newton", CLASSES, check, strategy=strategy, n={"quick": 48, "thorough": 1200}, chunk=8, weight=3),
     Family("solve", ["spd", "unsymmetric"], solve_check, strategy=solve_strategy, n={"quick": 30, "thorough": 3000}, chunk=50),
 ]
 
